@@ -9,6 +9,13 @@ Three parties per generated case:
   `aligned_source() == apply(source)`, `alignment_error() == ||requested target - apply(source)||`;
 * the Lean model `Core/C07Align.lean` run through `Drive/C07.lean` on the same inputs as exact rationals
   (theorems: `Props/C07Base.lean` single alignments, `Props/C07.lean` degenerate sizes / TPS affine recovery / GPA).
+
+A second, stronger tie is checked before any case is generated: `harness/trans_c07.py` TRANSLATES THE SOURCE TEXT of the
+alignment code of the working tree into `lean/MenpoModel/Generated/C07Src.lean` (constructors and re-fits of the five
+homogeneous alignments, optimal_rotation_matrix, procrustes_alignment, the Alignment / Targetable plumbing, copy /
+pseudoinverse, the piecewise-affine and thin-plate-spline formulas, generalized Procrustes) and
+`lean/MenpoModel/GenProps/C07Src*.lean` prove every translated definition equal to the Core definition for all arguments
+and restate the property for the translated definitions (`generated_source`).
 """
 import json
 import math
@@ -23,8 +30,10 @@ INFO = dict(
     technique="Lean 4 proof (least-squares optimality by orthogonality of the residual, Kabsch with and without the "
               "determinant constraint from the SVD contract, exact recovery from optimality + full rank, barycentric "
               "algebra for piecewise-affine maps, block-system algebra for thin-plate splines incl. exact recovery of "
-              "affine maps, invariant by induction over the generalized-Procrustes iteration) + model/implementation "
-              "correspondence on generated alignments",
+              "affine maps, invariant by induction over the generalized-Procrustes iteration) + source-to-Lean "
+              "translation of the alignment code on every run (harness/trans_c07.py over harness/py2lean2.py: 48 "
+              "functions of the working tree, each proved equal to the Core definition for all arguments) + "
+              "model/implementation correspondence on generated alignments",
     level_text="Theorems over an executable model of the alignment constructors (exact rational arithmetic, matrices "
                "generic in the number of points and in the dimension): translation and affine alignments minimise the "
                "squared error over their whole family; the rotation alignment is optimal among all orthogonal maps "
@@ -45,7 +54,27 @@ INFO = dict(
                "target, hence each reproduces its centroid and size, uses the least-squares rotation and is no "
                "reflection unless allowed; aligned source = transform(source), alignment error = distance(requested "
                "target, aligned source) for a constructor that keeps the requested target, and identically 0 for the "
-               "constructor of the original tree (refuted with a witness).  The model is tied to /repo by running the "
+               "constructor of the original tree (refuted with a witness).  TRANSLATED rather than transcribed (source "
+               "text of the working tree -> Generated/C07Src.lean on every run; GenProps/C07Src*.lean: translated = Core "
+               "definition for all arguments, by case split on what the model distinguishes + simp, so harmless rewrites "
+               "keep the proofs and a changed decision breaks them): PointCloud.centre / norm; Alignment.__init__, "
+               "aligned_source, alignment_error, _target_setter, _new_target_from_state; Targetable.set_target, "
+               "_target_setter_with_verification, _sync_target_from_state; __init__ and _sync_state_from_target of "
+               "AlignmentTranslation / UniformScale / Affine / Rotation / Similarity; AlignmentAffine._build_alignment_h_matrix "
+               "and _set_h_matrix; optimal_rotation_matrix; AlignmentRotation.set_rotation_matrix; procrustes_alignment; "
+               "HomogFamilyAlignment.copy / pseudoinverse; alpha_beta, containment_from_alpha_beta, index_alpha_beta, "
+               "barycentric_vectors, AbstractPWA.__init__ / trilist / _rebuild_target_vectors / _sync_state_from_target / "
+               "_apply / pseudoinverse, PythonPWA.__init__ / index_alpha_beta; ThinPlateSplines.__init__ / "
+               "_build_coefficients / _sync_state_from_target / _apply / pseudoinverse; mean_pointcloud, "
+               "MultipleAlignment.__init__, GeneralizedProcrustesAnalysis.__init__ / _recursive_procrustes.  On top of the "
+               "equalities the property is stated for the translated definitions themselves (src_* theorems): every "
+               "clause holds for the object the translated constructor builds AND after every history of set_target "
+               "calls (induction over the list of targets: the re-fit uses the stored rotation / allow_mirror options "
+               "and nothing of the previous target), a pseudoinverse()-born alignment re-aimed with set_target is the "
+               "constructor's alignment from the old target to the new one, a mesh source keeps its own triangle "
+               "list, the TPS system matrix assembled from blocks is the model's, and on every exit path of the "
+               "translated GPA iteration every member is the similarity alignment of its source to one common final "
+               "target.  Besides, the model is tied to /repo by running the "
                "real classes on generated point sets (all shape classes as sources/targets, int64/float32/float64 "
                "arrays, constructor-born and re-targeted objects; also the public functions procrustes_alignment, "
                "optimal_rotation_matrix, index_alpha_beta) and diffing matrices, coefficients, triangle choices and "
@@ -69,7 +98,9 @@ INFO = dict(
          "the rotating classes, landmarks 2^20 from the origin for the classes that centre first; piecewise-affine "
          "sources = Delaunay of a point set, or meshes carrying their own (grid with either diagonal, non-Delaunay "
          "quad split, fan of a convex polygon) triangulation, CachedPWA and PythonPWA; GPA over 1..5 sources in "
-         "2-D/3-D with and without mirroring / a given target; constructor-born and re-targeted objects; "
+         "2-D/3-D with and without mirroring / a given target; constructor-born objects, objects re-targeted from the "
+         "pseudoinverse() of the reverse alignment, and objects born on a first target stored in another dtype (int64 "
+         "whole-pixel / float32 / float64) and then re-aimed with set_target; "
          "near-degenerate inputs (rank, singular-value gaps, TPS conditioning, points within 1e-6 of a triangle edge, "
          "a GPA convergence test within 0.1% of its threshold) rejected on the input; zero-size sources/targets are "
          "generated but only recorded (counted as trivial).  distinct = distinct (class, options, source, target); "
@@ -86,10 +117,17 @@ INFO = dict(
              "quantifier excludes; judged systems stay 20x above the 1e-4 threshold; exact recovery of affine maps "
              "assumes the system invertible (a checked right inverse; the model computes one on every affine-image case)",
              "generalized Procrustes: the theorems are about the iteration given what norm/svd answered in each pass "
-             "(contract hypotheses only for the last pass); that the iteration converges for members of one "
-             "similarity class is decided by the oracle, not proved; max_iterations is fixed at 100 inside the "
-             "constructor, so the not-converged exit is proved for the model (and shown on a concrete run) but is not "
-             "driven through the public API",
+             "(contract hypotheses only for the last pass; Core gpa, what the driver runs) and, for the TRANSLATED "
+             "iteration with norm/svd as functions (gpaRecExt), the alignment invariant and the centroid clause; the two "
+             "formulations are not proved equal to each other (both are tied to the code: one by the correspondence, one "
+             "by the translation); that the iteration converges for members of one similarity class is decided by the "
+             "oracle, not proved; max_iterations is fixed at 100 inside the constructor, so the not-converged exit is "
+             "proved for the model (and shown on a concrete run) but is not driven through the public API",
+             "source translation: the rule tables of harness/trans_c07.py are trusted (numpy idioms read on the exact "
+             "model: h[:-1, -1] = v, np.fill_diagonal, E[-1, -1] = d, np.concatenate blocks, u[:, :keep] as zero-padding, "
+             "the einsum strings of alpha_beta read for one triangle and one point, alpha / beta rows of one query point); "
+             "which method a Cls.__init__(self, ...) call ends in is checked on the live MRO, not translated; dimension "
+             "/ shape guards that the typed model cannot violate (_verify_source_and_target, _verify_target) are dropped",
              "zero-size sources/targets (excluded by the quantifier) are modelled (fitScaleE/simFitE: no finite answer "
              "iff the source has zero size) and recorded per run, but a disagreement there is only counted, not judged",
              "piecewise affine: conformity of the triangulation is no longer assumed but checked - the executable "
@@ -108,8 +146,10 @@ INFO = dict(
                  "source point sets are non-degenerate (full rank for the affine fit, positive size, distinct "
                  "landmarks for TPS/PWA), as the property's quantifier says"],
     design_ref="DESIGN.md section 6, C07; section 7 #22")
-IMPORTS = ["MenpoModel.Props.C07", "MenpoModel.GenProps.C07"]
-TARGETS = ["MenpoModel.Props.C07", "MenpoModel.Drive.C07", "MenpoModel.GenProps.C07"]
+SRC_MODULES = ["MenpoModel.GenProps.C07Src", "MenpoModel.GenProps.C07SrcPwa", "MenpoModel.GenProps.C07SrcTps",
+               "MenpoModel.GenProps.C07SrcGpa", "MenpoModel.GenProps.C07SrcProps"]
+IMPORTS = ["MenpoModel.Props.C07", "MenpoModel.GenProps.C07"] + SRC_MODULES
+TARGETS = ["MenpoModel.Props.C07", "MenpoModel.Drive.C07", "MenpoModel.GenProps.C07"] + SRC_MODULES
 _T = "MenpoModel.C07."
 THEOREMS = [_T + t for t in [
     "translation_ls_optimal", "translation_ls_excess", "translation_recovery",
@@ -144,7 +184,43 @@ THEOREMS = [_T + t for t in [
     "gpa_reported_target_none", "gpa_reported_target_some",
     "gpa_converged_spec", "gpa_not_converged_spec", "gpa_nIter_le",
     "scaleAboutCentre_centroid", "scaleAboutCentre_norm2", "gpaNewTarget_centroid", "gpaNewTarget_size",
-]] + ["MenpoModel.GenProps.C07.entries_wf", "MenpoModel.GenProps.C07.gpa_live_ok"]
+]] + ["MenpoModel.GenProps.C07.entries_wf", "MenpoModel.GenProps.C07.gpa_live_ok", "MenpoModel.GenProps.C07.dtype_rows_ok"]
+# translated source = Core model (GenProps/C07Src*.lean over Generated/C07Src.lean, rewritten from the source text on every run)
+SRC_THEOREMS = ["MenpoModel.GenProps.C07Src." + t for t in [
+    "genPointCloudCentre_eq", "genPointCloudNorm_eq",
+    "genAlignmentInit_eq", "genAlignedSource_eq", "genAlignedSource_hobj", "genAlignmentError_eq", "genTargetSetter_eq",
+    "genNewTargetFromState_eq", "genTargetSetterWithVerification_eq", "genSyncTargetFromState_eq", "genSetTarget_eq",
+    "genTranslationInit_eq", "genTranslationSync_eq", "translation_retarget", "translation_retargets",
+    "genScaleInit_eq", "genScaleSync_eq", "scale_retarget", "scale_retargets",
+    "genAffineBuildH_eq", "genAffineSetH_eq", "genAffineInit_eq", "genAffineSync_eq", "affine_retarget",
+    "genOptimalRotationMatrix_eq", "genRotationSetRotationMatrix_eq", "genRotationInit_eq", "genRotationSync_eq",
+    "rotation_retarget", "rotation_retargets",
+    "genProcrustesAlignment_eq", "genSimilarityInit_eq", "genSimilaritySync_eq", "similarity_retarget", "similarity_retargets",
+    "retargets_last",
+    "genHomogCopy_eq", "genHomogPinv_eq", "affine_pinv_retarget", "similarity_pinv_retarget", "rotation_pinv_retarget",
+    "translation_pinv_retarget", "scale_pinv_retarget", "genPwaPinv_eq", "genTpsPinv_eq",
+    "genAlphaBeta_eq", "genContainment_eq", "genIndexAlphaBeta_eq", "pwaTri_eq_idx", "genBarycentricVectors_eq",
+    "genPwaTrilist_eq", "genPwaRebuildTargetVectors_eq", "genPwaSync_eq", "genPythonPwaInit_eq", "pwa_retarget",
+    "genPythonPwaIndexAlphaBeta_eq", "genPwaApply_eq",
+    "blocks_eq_tpsL", "rhs_eq_tpsY", "truncated_inverse", "genTpsBuildCoefficients_eq", "genTpsSync_eq", "genTpsInit_eq",
+    "tps_retarget", "genTpsApply_eq",
+    # the property stated for the translated code itself (GenProps/C07SrcProps.lean), every history of set_target calls
+    "src_aligned_source", "src_alignment_error",
+    "src_translation_ls_optimal", "src_translation_recovery", "src_scale_reproduces_size", "src_scale_recovery",
+    "src_affine_ls_optimal", "src_affine_retarget_ls_optimal", "src_affine_recovery",
+    "src_rotation_ls_optimal_mirror", "src_rotation_ls_optimal_2d", "src_rotation_ls_optimal_3d",
+    "src_rotation_no_reflection_2d", "src_rotation_no_reflection_3d",
+    "src_similarity_reproduces_centroid", "src_similarity_reproduces_size",
+    "src_similarity_uses_ls_rotation_mirror", "src_similarity_uses_ls_rotation_2d", "src_similarity_uses_ls_rotation_3d",
+    "src_pwa_object", "src_pwa_mesh_keeps_trilist", "src_pwa_interpolates", "src_pwa_affine_on_closed_triangle",
+    "src_pwa_retarget_interpolates", "src_tps_interpolates", "src_tps_init_interpolates",
+    # generalized Procrustes (GenProps/C07SrcGpa.lean)
+    "genMeanPointcloud_eq", "genMultipleAlignmentInit_eq", "genGpaRecursiveProcrustes_eq", "genGpaRec_eq", "genGpaInit_eq",
+    "gpaStep_inv", "gpa_ext_inv", "src_gpa_transforms_are_alignments", "src_gpa_none_iff", "src_gpa_reproduces_centroid",
+    "src_similarity_no_reflection_2d", "src_similarity_no_reflection_3d", "simObj_eq_init", "src_gpa_members",
+    "src_gpa_reproduces_size",
+]]
+THEOREMS = THEOREMS + SRC_THEOREMS
 
 TOL = 1e-9
 TOL32 = 1e-4
@@ -154,7 +230,8 @@ F = Fraction
 def case_tol(case):
     """comparison tolerance of a case: 1e-9 relative; 1e-4 relative when the point arrays are float32 (the
     implementation then computes in single precision)"""
-    return TOL32 if case.get("dtype") == "f32" else TOL
+    dts = [case.get("dtype"), case.get("dtype_s"), case.get("dtype_t")]   # not the dtype of a previous life's target
+    return TOL32 if "f32" in dts else TOL
 
 
 # ============================================================================ small exact helpers (oracle side)
@@ -840,9 +917,13 @@ def gen_gpa_case(rng, kind=None):
             base = gen_points(rng, n, d)
         k = rng.choice([2, 2, 3, 3, 4, 5])
         shapes = []
+        # whole-pixel annotations: every source an int64 array (the mean shape and every re-fit must come out in floats)
+        intlike = kind == "unrelated" and rng.random() < 0.4
+        if intlike:
+            base = np.round(base * 4.0)
         for _ in range(k):
             if kind == "unrelated":
-                P = base + np.array([[rng.randint(-8, 8) / 4.0 for _ in range(d)] for _ in range(n)])
+                P = base + np.array([[rng.randint(-8, 8) / (1.0 if intlike else 4.0) for _ in range(d)] for _ in range(n)])
             else:
                 H = member_matrix(rng, "similarity", {"rotation": True, "mirror": mirror}, d)
                 P = to_float(apply_exact(H, base))
@@ -861,7 +942,10 @@ def gen_gpa_case(rng, kind=None):
         rep = gpa_replica(shapes, target, mirror)
         if not rep["ok"] or rep["n_iter"] > 40:
             continue
-        return dict(cls="gpa", opts={"mirror": mirror, "target": target is not None}, S=shapes, T=target, kind=kind)
+        case = dict(cls="gpa", opts={"mirror": mirror, "target": target is not None}, S=shapes, T=target, kind=kind)
+        if intlike:
+            case["dtype"] = "int"
+        return case
     raise common.Infra("C07 generator could not produce a well-conditioned GPA case")
 
 
@@ -881,23 +965,29 @@ def code_of(case):
             "similarity": "AlignmentSimilarity(S, T, rotation=%r, allow_mirror=%r)" % (o.get("rotation", True), o.get("mirror", False)),
             "tps": "ThinPlateSplines(S, T)", "pwa": "PiecewiseAffine(S, T)"}.get(cls)
     if cls == "gpa":
+        conv = ".astype(np.int64)" if case.get("dtype") == "int" else ""
         return ("import numpy as np\nfrom menpo.shape import PointCloud\nfrom menpo.transform import GeneralizedProcrustesAnalysis\n"
-                "shapes=[PointCloud(np.array(s)) for s in %r]\ntarget=%s\n"
+                "shapes=[PointCloud(np.array(s)%s) for s in %r]\ntarget=%s\n"
                 "g=GeneralizedProcrustesAnalysis(shapes, target=target, allow_mirror=%r)\n"
                 "print(g.converged, g.n_iterations, [t.alignment_error() for t in g.transforms])"
-                % (case["S"], "None" if case.get("T") is None else "PointCloud(np.array(%r))" % (case["T"],),
+                % (conv, case["S"], "None" if case.get("T") is None else "PointCloud(np.array(%r))" % (case["T"],),
                    bool(case["opts"].get("mirror", False))))
     own = cls == "pwa" and o.get("mesh") != "delaunay"
     if cls == "pwa":
         ctor = "%s(S, T)" % o.get("impl", "PiecewiseAffine")
     dt = case.get("dtype")
+    first = ""
+    if case.get("life") == "retyped":
+        f = case["first"]
+        first = shape_code("T0", f["T"], o.get("target_class", "PointCloud"), None, f["dtype"])
+        ctor = ctor.replace("(S, T", "(S, T0") + "\na.set_target(T)"
     return ("import numpy as np\nfrom collections import OrderedDict\nfrom menpo.image import Image\nfrom menpo.shape import *\n"
             "from menpo.transform import *\nfrom menpo.transform.piecewiseaffine.base import PythonPWA\n"
-            "%s%sa=%s\n"
+            "%s%s%sa=%s\n"
             "print('alignment_error', a.alignment_error(), 'true residual', np.linalg.norm(a.apply(S.points)-T.points))\n"
             "print('target is the requested one', np.array_equal(a.target.points, T.points))"
-            % (shape_code("S", case["S"], o.get("source_class", "PointCloud"), case.get("trilist") if own else None, dt),
-               shape_code("T", case["T"], o.get("target_class", "PointCloud"), None, dt), ctor))
+            % (shape_code("S", case["S"], o.get("source_class", "PointCloud"), case.get("trilist") if own else None, case.get("dtype_s", dt)),
+               shape_code("T", case["T"], o.get("target_class", "PointCloud"), None, case.get("dtype_t", dt)), first, ctor))
 
 
 def shape_code(name, points, shape_cls, trilist, dtype):
@@ -944,6 +1034,14 @@ def build(case):
     exist, an alignment to another target) and was then brought to T with set_target; property C08 makes it the same
     alignment, so every C07 clause must hold for it as for a fresh one."""
     a, S, T = _build_fresh(case)
+    if case.get("life") == "retyped":
+        # previous life on a first target held in ANOTHER STORAGE DTYPE (whole-pixel int64 / float32 / float64
+        # coordinates), then brought to the case's target with set_target: no buffer allocated for the first
+        # target may decide how the second one is stored
+        f = case["first"]
+        b = _build_fresh(dict(case, T=f["T"], dtype_t=f["dtype"], life=None))[0]
+        b.set_target(T)
+        return b, (b.source if case["cls"] == "pwa" else S), T
     if case.get("life") != "retargeted":
         return a, S, T
     from menpo.shape import PointCloud
@@ -970,8 +1068,8 @@ def _build_fresh(case):
     cls, o = case["cls"], case["opts"]
     own = cls == "pwa" and o.get("mesh") != "delaunay"
     dt = case.get("dtype")
-    S = make_shape(case["S"], o.get("source_class", "PointCloud"), case.get("trilist") if own else None, dt)
-    T = make_shape(case["T"], o.get("target_class", "PointCloud"), None, dt)
+    S = make_shape(case["S"], o.get("source_class", "PointCloud"), case.get("trilist") if own else None, case.get("dtype_s", dt))
+    T = make_shape(case["T"], o.get("target_class", "PointCloud"), None, case.get("dtype_t", dt))
     if cls == "translation":
         return mt.AlignmentTranslation(S, T), S, T
     if cls == "scale":
@@ -1246,8 +1344,8 @@ def build_gpa(case):
     from menpo.transform import GeneralizedProcrustesAnalysis
     o = case["opts"]
     classes = case.get("src_classes") or ["PointCloud"] * len(case["S"])
-    shapes = [make_shape(sp, c) for sp, c in zip(case["S"], classes)]
-    target = None if case.get("T") is None else make_shape(case["T"], case.get("tgt_class", "PointCloud"))
+    shapes = [make_shape(sp, c, dtype=case.get("dtype")) for sp, c in zip(case["S"], classes)]
+    target = None if case.get("T") is None else make_shape(case["T"], case.get("tgt_class", "PointCloud"), dtype=case.get("dtype"))
     g = GeneralizedProcrustesAnalysis(shapes, target=target, allow_mirror=bool(o.get("mirror", False)))
     return g, shapes, target
 
@@ -1401,6 +1499,8 @@ def run_case(ctx, case, cid, lines, pending):
         ctx.count("shape:" + flag)
     if case.get("life"):
         ctx.count("life:" + case["life"])
+    if case.get("first"):
+        ctx.count("first-target-dtype:%s" % (case["first"]["dtype"] or "f64"))
     ctx.count("kind:" + case["kind"])
     if cls == "gpa":
         ctx.count("dims:%d" % len(case["S"][0][0]))
@@ -1773,8 +1873,45 @@ def entry_table():
     return rows, live
 
 
+def dtype_table():
+    """storage dtypes of the state arrays after a history (first target of dtype A, set_target to a target of dtype B) next
+    to those of an object built directly on the second target; all 9 (A, B) pairs for every single-alignment class"""
+    import menpo.transform as mt
+    from menpo.shape import PointCloud
+    from menpo.transform.piecewiseaffine.base import PythonPWA, CachedPWA
+    S = np.array([[0.0, 0.0], [4.0, 0.0], [4.0, 3.0], [0.0, 3.0], [2.0, 1.0]])
+    T0 = np.array([[1.0, 0.0], [5.0, 1.0], [4.0, 4.0], [0.0, 3.0], [2.0, 2.0]])
+    T1 = T0 + np.array([[0.25, 0.5], [0.0, 0.25], [0.5, 0.0], [0.25, 0.25], [0.0, 0.5]])
+    DT = [("i8", np.int64), ("f4", np.float32), ("f8", np.float64)]
+
+    def arrs(o):
+        out = {}
+        for k_, v_ in sorted(vars(o).items()):
+            if isinstance(v_, np.ndarray):
+                out[k_] = str(v_.dtype)
+            elif hasattr(v_, "points") and isinstance(getattr(v_, "points", None), np.ndarray):
+                out[k_ + ".points"] = str(v_.points.dtype)
+        return out
+    rows = []
+    for c in [mt.AlignmentTranslation, mt.AlignmentUniformScale, mt.AlignmentRotation, mt.AlignmentSimilarity,
+              mt.AlignmentAffine, mt.ThinPlateSplines, CachedPWA, PythonPWA]:
+        for n0, d0 in DT:
+            for n1, d1 in DT:
+                t1 = (T1 * 4).astype(d1) if n1 == "i8" else T1.astype(d1)
+                try:
+                    a = c(PointCloud(S.copy()), PointCloud(T0.astype(d0)))
+                    a.set_target(PointCloud(t1.copy()))
+                    b = c(PointCloud(S.copy()), PointCloud(t1.copy()))
+                    ra, rb = arrs(a), arrs(b)
+                except Exception as e:  # noqa: BLE001 - a class that cannot be built / re-aimed here breaks the obligation
+                    ra, rb = {"raises": type(e).__name__}, {}
+                rows.append((c.__name__, n0, n1, [(k_, ra.get(k_, "-"), rb.get(k_, "-")) for k_ in sorted(set(ra) | set(rb))]))
+    return rows
+
+
 def generated(ctx):
     rows, live = entry_table()
+    drows = dtype_table()
 
     def esc(x):
         return '"%s"' % str(x).replace("\\", "\\\\").replace('"', '\\"')
@@ -1792,13 +1929,83 @@ def generated(ctx):
            "   _sync_state_from_target, and what two live GeneralizedProcrustesAnalysis objects hold.  Do not edit. -/\n"
            "import MenpoModel.Core.C07Table\n\nnamespace MenpoModel.Generated.C07\nopen MenpoModel.C07\n\n"
            "def entries : List EntryRow :=\n  [%s]\n\ndef gpaLive : List GpaLive :=\n  [%s]\n\n"
-           "end MenpoModel.Generated.C07\n" % (body, lv))
+           "/-- storage dtypes after (first target dtype, set_target dtype) vs a fresh object: (attribute, re-aimed, fresh) -/\n"
+           "def dtypeRows : List DtypeRow :=\n  [%s]\n\n"
+           "end MenpoModel.Generated.C07\n" % (body, lv, ",\n   ".join(
+               "⟨%s, %s, %s, [%s]⟩" % (esc(c), esc(a_), esc(b_), ", ".join("(%s, %s, %s)" % (esc(k_), esc(x_), esc(y_)) for k_, x_, y_ in at))
+               for c, a_, b_, at in drows)))
     ctx.notes["entry_table"] = {c: {"params": ps, "providers": pv} for c, ps, pv in rows}
     ok = common.build_generated(ctx, {"MenpoModel/Generated/C07Entries.lean": gen},
-                                ["MenpoModel.Generated.C07Entries", "MenpoModel.GenProps.C07"], 2)
+                                ["MenpoModel.Generated.C07Entries", "MenpoModel.GenProps.C07"], 3)
     if not ok and ctx.broken_obligations:
-        ctx.broken_obligations[-1]["obligation"] = "MenpoModel.GenProps.C07.entries_wf / gpa_live_ok"
-        ctx.broken_obligations[-1]["observed"] = {"entries": ctx.notes["entry_table"], "gpa_live": live}
+        ctx.broken_obligations[-1]["obligation"] = "MenpoModel.GenProps.C07.entries_wf / gpa_live_ok / dtype_rows_ok"
+        ctx.broken_obligations[-1]["observed"] = {"entries": ctx.notes["entry_table"], "gpa_live": live,
+                                                  "dtype_rows_differing": [(c, a_, b_, [t for t in at if t[1] != t[2]])
+                                                                           for c, a_, b_, at in drows if any(t[1] != t[2] for t in at)]}
+    return generated_source(ctx) and ok
+
+
+def broken_theorems(errors, rels):
+    """names of the theorems of the files lean/<rel> in which the build reported an error (`file:line:col: error`)"""
+    import os
+    import re
+    out = []
+    for rel in rels:
+        try:
+            text = open(os.path.join(common.LEAN, rel)).read().splitlines()
+        except OSError:
+            continue
+        for e in errors:
+            m = re.search(re.escape(rel) + r":(\d+):", e)
+            if not m:
+                continue
+            for ln in range(min(int(m.group(1)), len(text)) - 1, -1, -1):
+                t = re.match(r"\s*theorem\s+(\S+)", text[ln])
+                if t:
+                    if t.group(1) not in out:
+                        out.append(t.group(1))
+                    break
+    return out
+
+
+# which alignment classes a broken `translated = Core` obligation concerns (bias of the directed search)
+SRC_CLASS_OF = [("Translation", "translation"), ("translation", "translation"), ("Scale", "scale"), ("scale", "scale"),
+                ("Affine", "affine"), ("affine", "affine"), ("Rotation", "rotation"), ("rotation", "rotation"),
+                ("Procrustes", "similarity"), ("Similarity", "similarity"), ("similarity", "similarity"),
+                ("Pwa", "pwa"), ("pwa", "pwa"), ("AlphaBeta", "pwa"), ("Containment", "pwa"), ("Barycentric", "pwa"),
+                ("Tps", "tps"), ("tps", "tps"), ("tpsL", "tps"), ("tpsY", "tps"), ("truncated", "tps"),
+                ("Pinv", "affine"), ("Pinv", "similarity"), ("Gpa", "gpa"), ("gpa", "gpa"), ("MultipleAlignment", "gpa"), ("MeanPointcloud", "gpa")]
+
+
+def generated_source(ctx):
+    """the SOURCE TEXT of the functions the model stands for, translated into Lean (harness/trans_c07.py) and proved equal to
+    the Core definitions the theorems are about (GenProps/C07Src*.lean).  Untranslatable source / a failed equality proof =
+    broken obligation (then: directed search), never an infrastructure error."""
+    from . import trans_c07
+    n0 = len(ctx.broken_obligations)
+    try:
+        files, why = trans_c07.generated_files()
+    except Exception as e:      # noqa: BLE001 - the functions themselves are gone / moved: the tie is broken, not the harness
+        files, why = None, ["%s: %s" % (type(e).__name__, e)]
+    ctx.notes["source_translation"] = ("translated %d definitions from the source text of the working tree" % trans_c07.N_DEFS
+                                       if not why else "untranslatable: " + "; ".join(why))
+    if files is None:
+        ctx.gen_obligations += len(SRC_THEOREMS)
+        ctx.broken_obligations.append({"targets": list(trans_c07.GEN_TARGETS), "errors": why, "output_tail": ""})
+        ok = False
+    else:
+        ok = common.build_generated(ctx, files, trans_c07.GEN_TARGETS, len(SRC_THEOREMS))
+    if not ok and len(ctx.broken_obligations) > n0:
+        b = ctx.broken_obligations[-1]
+        names = broken_theorems(b.get("errors", []), ["MenpoModel/GenProps/C07Src.lean", "MenpoModel/GenProps/C07SrcPwa.lean",
+                                                       "MenpoModel/GenProps/C07SrcTps.lean", "MenpoModel/GenProps/C07SrcGpa.lean",
+                                                       "MenpoModel/GenProps/C07SrcProps.lean"])
+        b["obligation"] = ("translated source = Core model: " + (", ".join(names) if names else
+                           "the translated definitions no longer elaborate / are untranslatable"))
+        if why:
+            b["untranslatable"] = why
+        hint = " ".join(names) + " " + " ".join(why) + " " + " ".join(b.get("errors", []))
+        b["classes"] = sorted({c for key, c in SRC_CLASS_OF if key in hint})
     return ok
 
 
@@ -1807,8 +2014,20 @@ def generated(ctx):
 def gen_case(rng, k):
     case = _gen_case(rng, k)
     cls = case.get("cls")
-    if cls in ("translation", "scale", "affine", "rotation", "similarity", "tps", "pwa") and rng.random() < 0.3:
+    single = cls in ("translation", "scale", "affine", "rotation", "similarity", "tps", "pwa")
+    u = rng.random()
+    if single and u < 0.3:
         case["life"] = "retargeted"
+    elif single and u < 0.55:
+        # born on whole-pixel (int64) / float32 / float64 landmarks, then re-aimed with set_target at the case's
+        # target, which is usually stored in another dtype
+        n_, d_ = len(case["S"]), len(case["S"][0])
+        while True:
+            T0 = [[float(rng.randint(-9, 9)) for _ in range(d_)] for _ in range(n_)]
+            if len({tuple(r) for r in T0}) > 1:
+                break
+        case["life"] = "retyped"
+        case["first"] = dict(T=T0, dtype=rng.choice(["int", "int", "int", "f32", None]))
     if cls in ("translation", "scale", "affine", "rotation", "rotx", "similarity", "tps") and rng.random() < 0.5:
         # the alignments read nothing but the points: sources / targets of every shape class, whatever they carry
         case["opts"] = dict(case["opts"], source_class=rng.choice(SHAPE_CLASSES), target_class=rng.choice(SHAPE_CLASSES))
@@ -1893,9 +2112,16 @@ def search(ctx):
         c = r.get("cls")
         if c and (c, json.dumps(r.get("opts", {}), sort_keys=True)) not in broken:
             broken.append((c, json.dumps(r.get("opts", {}), sort_keys=True)))
+    for b in ctx.broken_obligations:
+        # a broken `translated source = Core model` obligation names the classes it is about: all their option sets
+        for c in b.get("classes", []):
+            for cls_, opts_ in ([(c, {})] if c in ("tps", "pwa", "gpa") else [(k_, o_) for k_, o_ in HOMOG if k_ == c]):
+                key = (cls_, json.dumps(opts_, sort_keys=True))
+                if key not in broken:
+                    broken.append(key)
     plan = []
     for c, oj in broken:
-        plan += [(c, json.loads(oj))] * 400
+        plan += [(c, json.loads(oj))] * (400 if len(broken) <= 3 else 200)
     plan += [None] * 1200
 
     class Sink(list):
@@ -1935,7 +2161,7 @@ def run(ctx):
                     "np.linalg.norm / sqrt contract (checked numerically per case against the exact squared norm)",
                     "scipy.spatial.Delaunay returns a conforming triangulation (hypothesis of the PWA theorems)"]
     rng = ctx.rng
-    n = ctx.n(1000, 12000)
+    n = ctx.n(1000, 11000)
     cases = witness_cases() + [gen_case(rng, k) for k in range(n)]
     run_batch(ctx, cases)
     return ctx.finish(search)
